@@ -41,6 +41,42 @@ def build(fam, seq, as_file, noise=0):
     return F["File"](c) if as_file else c
 
 
+CARRIER = {1: 1, 2: 0.3, 3: 0.1 + 0.2}
+EDITS = ["item", "assign", "slice"]
+
+
+def move(obj, cur, new, fam, how):
+    """bring the container (or file) `obj`, which holds the abstract sequence `cur`, to hold `new` by editing it IN PLACE:
+    elements of the longest common prefix of equal types keep their identity and get their data edited (`how`: item
+    assignment data[0] = v -- what a property setter of a user component does --, slice assignment data[:] = [v], or
+    assignment of a new list to .data); what follows is removed from the tail and the new tail is appended as new elements"""
+    F = families.get(fam)
+    T = families.elem_classes(fam) + [F["Default"]]
+    c = obj.data if isinstance(obj, F["File"]) else obj
+    elems = list(c)
+    p = 0
+    while p < min(len(cur), len(new)) and cur[p][0] == new[p][0]:
+        p += 1
+    for e in reversed(elems[p:]):
+        c.remove(e)
+    for i in range(p):
+        if cur[i][1] != new[i][1]:
+            v = CARRIER.get(new[i][1], new[i][1])
+            e = elems[i]
+            if how == "item":
+                e.data[0] = v
+            elif how == "slice":
+                e.data[:] = [v]
+            else:
+                e.data = [v]
+    for t, d in new[p:]:
+        c.append(T[t](data=[CARRIER.get(d, d)]))
+
+
+def seq_equal(xs, ys):
+    return len(xs) == len(ys) and all(x == y for x, y in zip(xs, ys))
+
+
 class CHECK(Check):
     pid = "C15"
     entry = "C15"
@@ -53,9 +89,35 @@ class CHECK(Check):
             "a file of another family). Also: the same register content read twice gives equal files and equal files "
             "write identical output. non-trivial = the two sequences differ in at most one position or are prefix-related; "
             "distinct = case hash"
-            " Later additions: register elements use the library's own Register.__eq__; half of the cases apply sequence-preserving operations (remove a non-member, remove twice and re-append, append+remove) before comparing; delimited register types in the read-twice part.")
+            " Later additions: register elements use the library's own Register.__eq__; half of the cases apply sequence-preserving operations (remove a non-member, remove twice and re-append, append+remove) before comparing; delimited register types in the read-twice part."
+            " Object histories: 40% of the random pairs and a seventh of the exhaustive ones are reached through 1-3 earlier states of the two objects (other data at 1-2 positions of one or both sides, sometimes a trailing element more or less), each state compared (==, reflected, !=, and each object with itself) and then edited IN PLACE into the next one (data[0] = v as a property setter does, data[:] = [v], or .data = [v]; tail elements removed/appended); every earlier comparison is judged element-wise too, and the final object is also compared with a freshly built equal one. Half of the read-twice files are, after being compared, edited in place (one value of one register blanked in the first file: unequal; then in the second: equal again, identical output).")
     not_exhibited = ["foreign right-hand sides and read-twice/write-equal are checked by the direct oracle only "
-                     "(the model covers container-vs-container comparison)"]
+                     "(the model covers container-vs-container comparison)",
+                     "in a case with a history the model gives the measured (last) comparison; the comparisons made on the earlier "
+                     "states, and those after the in-place edit of read files, are judged by the direct oracle (element-wise "
+                     "comparison of the abstract sequences / of types and data seen through the public API)"]
+
+    def history(self, rng, xs, ys):
+        """1-3 earlier states of the two sequences (same element types on the common positions, so that the elements keep their
+        identity; other data at 1-2 positions of one side or of both; sometimes a trailing element more or less), each of
+        which is compared before it is edited in place into the next one; the last edit leads to xs / ys"""
+        def earlier(seq, js):
+            st = [list(e) for e in seq]
+            for j in js:
+                if j < len(st):
+                    st[j][1] = rng.choice([d for d in (1, 2, 3) if d != st[j][1]])
+            r = rng.random()
+            if r < 0.12 and len(st) > 1:
+                st.pop()
+            elif r < 0.24:
+                st.append([rng.choice([0, 1, 2, 3, 4]), rng.choice([1, 2, 3])])
+            return st
+        steps = []
+        for _ in range(rng.choice([1, 1, 2, 3])):
+            js = [rng.randrange(max(len(xs), len(ys))) for _ in range(rng.choice([1, 1, 2]))]
+            side = rng.choice(["x", "y", "both", "both"])
+            steps.append({"xs": earlier(xs, js if side != "y" else []), "ys": earlier(ys, js if side != "x" else [])})
+        return {"steps": steps, "edit": rng.choice(EDITS)}
 
     def gen(self, tier, rng):
         pool = [(0, 1), (0, 2), (1, 1), (2, 1), (1, 2)]
@@ -65,8 +127,12 @@ class CHECK(Check):
         for xs in seqs:
             for ys in seqs:
                 i += 1
-                yield {"fam": families.FAMILIES[i % 3], "xs": [list(x) for x in xs], "ys": [list(y) for y in ys],
-                       "file": i % 2 == 0, "kind": "exh"}
+                c = {"fam": families.FAMILIES[i % 3], "xs": [list(x) for x in xs], "ys": [list(y) for y in ys],
+                     "file": i % 2 == 0, "kind": "exh"}
+                yield c
+                if i % 7 == 0:
+                    # the same pair reached through a history of compared-and-edited earlier states
+                    yield dict(c, hist=self.history(rng, c["xs"], c["ys"]))
         n = 3000 if tier == "quick" else 60000
         for _ in range(n):
             ln = rng.randint(1, 8)
@@ -91,7 +157,10 @@ class CHECK(Check):
                     xs, ys = ys, xs
             elif k == "random":
                 ys = [[rng.choice([0, 1, 2, 3, 4]), rng.choice([1, 2, 3])] for _ in range(rng.randint(1, 8))]
-            yield {"fam": rng.choice(families.FAMILIES), "xs": xs, "ys": ys, "file": rng.random() < 0.5, "kind": k}
+            c = {"fam": rng.choice(families.FAMILIES), "xs": xs, "ys": ys, "file": rng.random() < 0.5, "kind": k}
+            if rng.random() < 0.4:
+                c["hist"] = self.history(rng, xs, ys)
+            yield c
         # the same content read twice gives equal files, and equal files write identical output
         from .. import reglib
         from .c04 import gen_line
@@ -99,8 +168,13 @@ class CHECK(Check):
             regdefs = reglib.gen_regdefs(rng, same_window=True, delim=rng.random() < 0.35)
             lines = [gen_line(rng, regdefs) for _ in range(rng.randint(0, 8))]
             lines = [l for l in lines if "nan" not in l.lower() and "inf" not in l.lower()]
-            yield {"fam": "register", "kind": "readtwice", "regdefs": regdefs, "xs": [], "ys": None,
-                   "content": "\n".join(lines) + (rng.choice(["\n", ""]) if lines else "")}
+            c = {"fam": "register", "kind": "readtwice", "regdefs": regdefs, "xs": [], "ys": None,
+                 "content": "\n".join(lines) + (rng.choice(["\n", ""]) if lines else "")}
+            if rng.random() < 0.5:
+                # after the two files were compared, one value of one register of the first is blanked in place (the files must
+                # differ now), then the same value of the second (they must be equal again and write the same output)
+                c["edit"] = {"pos": rng.randrange(64), "field": rng.randrange(64), "how": rng.choice(EDITS)}
+            yield c
         for fam in families.FAMILIES:
             for f in FOREIGN:
                 for as_file in (False, True):
@@ -124,13 +198,57 @@ class CHECK(Check):
                 ba, bb = io.StringIO(), io.StringIO()
                 a.write(ba)
                 b.write(bb)
-                return {"ab": bool(a == b), "ba": bool(b == a), "ne": bool(a != b), "same_output": ba.getvalue() == bb.getvalue(),
-                        "distinct_containers": a.data is not b.data}
+                obs = {"ab": bool(a == b), "ba": bool(b == a), "ne": bool(a != b), "same_output": ba.getvalue() == bb.getvalue(),
+                       "distinct_containers": a.data is not b.data}
+                ed = case.get("edit")
+                if ed:
+                    def elementwise(f, g):
+                        x, y = list(f.data), list(g.data)
+                        return len(x) == len(y) and all(type(u) is type(v) and u.data == v.data for u, v in zip(x, y))
+
+                    def blank(f, k, i):
+                        e = list(f.data)[k]
+                        if ed["how"] == "item":
+                            e.data[i] = None
+                        elif ed["how"] == "slice":
+                            e.data[i:i + 1] = [None]
+                        else:
+                            e.data = e.data[:i] + [None] + e.data[i + 1:]
+                    el = [k for k, e in enumerate(a.data) if isinstance(e.data, list) and any(v is not None for v in e.data)]
+                    if el:
+                        k = el[ed["pos"] % len(el)]
+                        ix = [i for i, v in enumerate(list(a.data)[k].data) if v is not None]
+                        i = ix[ed["field"] % len(ix)]
+                        blank(a, k, i)
+                        obs["mid"] = {"exp": elementwise(a, b), "ab": bool(a == b), "ba": bool(b == a), "ne": bool(a != b)}
+                        blank(b, k, i)
+                        ba, bb = io.StringIO(), io.StringIO()
+                        a.write(ba)
+                        b.write(bb)
+                        obs["end"] = {"exp": elementwise(a, b), "ab": bool(a == b), "ba": bool(b == a), "ne": bool(a != b),
+                                      "same_output": ba.getvalue() == bb.getvalue()}
+                return obs
             except Exception as e:
                 return {"raised": type(e).__name__ + ": " + str(e)[:80]}
         import hashlib, json
         h = int(hashlib.sha1(json.dumps(case, sort_keys=True).encode()).hexdigest(), 16)
         na, nb = (h % 4, (h >> 3) % 4) if h & 64 else (0, 0)    # half of the cases: sequence-preserving operations before comparing
+        hist = case.get("hist")
+        if hist:
+            # the two objects start in the first earlier state; each state is compared (also each object with itself, which walks
+            # all of its elements) and then edited in place into the next one, the last edit leading to xs / ys
+            st = hist["steps"]
+            a = build(case["fam"], st[0]["xs"], case["file"], na)
+            b = build(case["fam"], st[0]["ys"], case["file"], nb)
+            seen = []
+            for k, cur in enumerate(st):
+                seen.append({"ab": bool(a == b), "ba": bool(b == a), "ne": bool(a != b), "aa": bool(a == a), "bb": bool(b == b)})
+                nxt = st[k + 1] if k + 1 < len(st) else case
+                move(a, cur["xs"], nxt["xs"], case["fam"], hist["edit"])
+                move(b, cur["ys"], nxt["ys"], case["fam"], hist["edit"])
+            a2 = build(case["fam"], case["xs"], case["file"])
+            return {"ab": bool(a == b), "ba": bool(b == a), "ne": bool(a != b), "aa": bool(a == a), "aa2": bool(a == a2),
+                    "again": bool(a == b), "hist": seen}
         a = build(case["fam"], case["xs"], case["file"], na)
         if case["ys"] is None:
             f = case["foreign"]
@@ -172,12 +290,25 @@ class CHECK(Check):
                 return "equal files write different output"
             if not obs["distinct_containers"]:
                 return "two reads of the same content share one container"
+            for ph in ("mid", "end"):
+                o = obs.get(ph)
+                if o is None:
+                    continue
+                if o["ab"] != o["exp"] or o["ba"] != o["exp"] or o["ne"] == o["exp"]:
+                    return "after an in-place edit of compared files: a == b is %s, b == a is %s, element-wise comparison says %s" % (o["ab"], o["ba"], o["exp"])
+                if ph == "end" and o["exp"] and not o["same_output"]:
+                    return "equal files write different output"
             return None
         if case["ys"] is None:
             if obs["ab"] or obs["ba"] or not obs["ne"]:
                 return "equal to a foreign object (%s)" % case["foreign"]
             return None
         xs, ys = case["xs"], case["ys"]
+        if case.get("hist"):
+            for st, o in zip(case["hist"]["steps"], obs["hist"]):
+                e = seq_equal(st["xs"], st["ys"])
+                if o["ab"] != e or o["ba"] != e or o["ne"] == e or not o["aa"] or not o["bb"]:
+                    return "an earlier state of the history compares wrongly: ==, reflected ==, != give %s %s %s, element-wise comparison says %s" % (o["ab"], o["ba"], o["ne"], e)
         exp = len(xs) == len(ys) and all(x == y for x, y in zip(xs, ys))
         if obs["ab"] != exp:
             return "a == b is %s, element-wise comparison says %s" % (obs["ab"], exp)
@@ -202,7 +333,16 @@ class CHECK(Check):
         return sum(1 for x, y in zip(xs, ys) if x != y) <= 1
 
     def classify(self, case):
-        return {"kind_" + case["kind"]: 1, "fam_" + case["fam"]: 1, "as_file" if case.get("file", True) else "as_container": 1}
+        d = {"kind_" + case["kind"]: 1, "fam_" + case["fam"]: 1, "as_file" if case.get("file", True) else "as_container": 1}
+        if case.get("hist"):
+            d["with_history"] = 1
+            d["history_steps_%d" % len(case["hist"]["steps"])] = 1
+            d["history_edit_" + case["hist"]["edit"]] = 1
+            if seq_equal(case["xs"], case["ys"]) and not all(seq_equal(s["xs"], s["ys"]) for s in case["hist"]["steps"]):
+                d["history_unequal_then_equal"] = 1
+        if case.get("edit"):
+            d["readtwice_edited_after_comparing"] = 1
+        return d
 
     def signature(self, case, why):
         return why.split(" (")[0]
@@ -211,6 +351,26 @@ class CHECK(Check):
         if case["ys"] is None or case.get("kind") == "readtwice":
             return
         xs, ys = case["xs"], case["ys"]
+        hist = case.get("hist")
+        if hist:
+            # fewer earlier states first, then shorter sequences (the same position taken out of every state; the first element
+            # keeps its type throughout, so that the in-place edit never empties a container)
+            steps = hist["steps"]
+            yield {k: v for k, v in case.items() if k != "hist"}
+            for k in range(len(steps)):
+                if len(steps) > 1:
+                    yield dict(case, hist=dict(hist, steps=steps[:k] + steps[k + 1:]))
+            for i in range(max([len(xs), len(ys)] + [len(s[w]) for s in steps for w in ("xs", "ys")])):
+                cut = lambda q: q[:i] + q[i + 1:]
+                c = dict(case, xs=cut(xs), ys=cut(ys),
+                         hist=dict(hist, steps=[{"xs": cut(s["xs"]), "ys": cut(s["ys"])} for s in steps]))
+                ok = True
+                for w in ("xs", "ys"):
+                    sts = [s[w] for s in c["hist"]["steps"]] + [c[w]]
+                    ok = ok and all(sts) and len(set(q[0][0] for q in sts if q)) == 1
+                if ok:
+                    yield c
+            return
         for i in range(max(len(xs), len(ys))):
             c = dict(case)
             c["xs"] = xs[:i] + xs[i + 1:]
